@@ -39,7 +39,7 @@ def exhaustive(tier):
 
 def required(tier):
     return ["all_40_headers_routed_alone", "all_40_together", "empty_body", "bom_by_path", "crlf", "crlf_by_path", "unknown_between_known",
-            "required_first", "required_last", "missing:Song", "missing:SyncTrack", "missing:Events", "instrument_before_Song", "probe_active"]
+            "required_first", "required_last", "missing:Song", "missing:SyncTrack", "missing:Events", "instrument_before_Song"]
 
 
 def shards(tier, seed):
